@@ -48,11 +48,7 @@ func registerHooks(p *Program) {
 		if !isSym {
 			return sv
 		}
-		v, ok := ps.Concretize(s, 0, n-1)
-		if !ok {
-			panic(abort{AbortInfeasible, "choose outside range"})
-		}
-		return int(v)
+		return int(ps.ChooseFresh(s, n))
 	}
 	h[rtPkg+".Assume"] = func(fr *frame, args []value) value {
 		fr.i.es.ps.Assume(args[0])
@@ -114,6 +110,10 @@ func registerHooks(p *Program) {
 		return call(fr.i, fr, token.NoPos, mb.Func("NewDB"), nil)
 	}
 	h[rtPkg+".CleanupDBs"] = func(fr *frame, args []value) value { return nil }
+	h[rtPkg+".IsConcrete"] = func(fr *frame, args []value) value {
+		_, ok := args[0].(string)
+		return ok
+	}
 	h[rtPkg+".Catch"] = hookCatch
 	h[rtPkg+".Tier"] = func(fr *frame, args []value) value { return fr.i.es.cfg.Tier }
 	h[rtPkg+".Logf"] = func(fr *frame, args []value) value {
